@@ -38,7 +38,8 @@ Renamed(r, q) ==
 Register(q) ==
   /\ steps < MaxSteps
   /\ q \in Requests
-  /\ (q.method # "none" => q.method \in Sels(reg))          \* the method was registered first
+  \* the method was registered first (or the class was registered before: its method entry already carries the class name)
+  /\ (q.method # "none" => (q.method \in Sels(reg) \/ (q.sel \o "." \o q.methodName) \in Sels(reg)))
   /\ LET v == Verdict(q) IN
      /\ out' = [op |-> "Register", req |-> q, status |-> v]
      /\ reg' = IF v = "ok" THEN { e \in Renamed(reg, q) : e.sel # q.sel } \cup {[sel |-> q.sel, obj |-> q.obj]} ELSE reg
@@ -54,7 +55,7 @@ SetInteractive(on) ==
 
 \* `with gin.interactive_mode():` around a registration whose body may fail: the mode ends with the block
 InteractiveBlock(q) ==
-  /\ steps < MaxSteps /\ q \in Requests /\ (q.method # "none" => q.method \in Sels(reg))
+  /\ steps < MaxSteps /\ q \in Requests /\ (q.method # "none" => (q.method \in Sels(reg) \/ (q.sel \o "." \o q.methodName) \in Sels(reg)))
   /\ LET v == IF locked THEN "RuntimeError" ELSE IF ~q.nameValid \/ ~q.moduleValid \/ q.bothLists \/ q.unknownListName THEN "ValueError"
                ELSE IF q.listNotSequence THEN "TypeError" ELSE "ok" IN
      /\ out' = [op |-> "InteractiveBlock", req |-> q, status |-> v]
